@@ -1,7 +1,7 @@
 INIT TInit
 NEXT TNext
 CONSTANTS
-  HP = {"app_1.ex:1965", "app-1.ex:1965", "app_1.ex:1966"}
+  HP = {"app_1.ex:1965", "app-1.ex:1965", "app_1.ex:1966", "app_1.ex.:1965"}
   Certs = {"c1", "c2"}
   MaxOps = 100000
   DevUnreadableSkipsCheck = FALSE
